@@ -10,6 +10,11 @@
 //                                           prints "<op> <violations> <first failing pattern or ->"
 //   fun_corr alpha <T> <fn>                exhaustive alpha pass-through of Color4<T> fn=rgb2hsv|hsv2rgb
 //   fun_corr lines                          command lines on stdin (see Driver/Fun.lean)
+//   fun_corr ilines                         the same, ISOLATED: the lines are answered by a forked child; when the child dies
+//                                           (a sanitizer abort in the -fsanitize=undefined build) the line it was working on is
+//                                           answered "UB <first line of the sanitizer report>" and a new child continues after it
+//   fun_corr packed_sweep                   rgb2packed (packed2rgb (p)) for ALL 2^32 words p, Color4<float> and Vec3<float>:
+//                                           prints "<C4f mismatches> <first or -> <V3f mismatches> <first or ->"
 #include <ImathFun.h>
 #include <ImathMath.h>
 #include <ImathRoots.h>
@@ -26,6 +31,9 @@
 #include <thread>
 #include <sstream>
 #include <iostream>
+#include <atomic>
+#include <unistd.h>
+#include <sys/wait.h>
 using namespace IMATH_NAMESPACE;
 
 static uint32_t f2u (float f) { uint32_t u; memcpy (&u, &f, 4); return u; }
@@ -138,6 +146,26 @@ __attribute__ ((noinline)) static int call_mods (int x, int y) { return mods (x,
 __attribute__ ((noinline)) static int call_divp (int x, int y) { return divp (x, y); }
 __attribute__ ((noinline)) static int call_modp (int x, int y) { return modp (x, y); }
 
+// floor / ceil / trunc: the result is STORED in an `int` by a function the optimiser cannot look through, so that what is
+// printed is what a caller receives (g++ otherwise propagates "signed overflow does not happen" through the inlined template
+// into the printing code and prints 2147483648 for ceil (2147483647.5)); in the UBSan build the overflow aborts here.
+__attribute__ ((noinline)) static int call_floor_d (double x) { return IMATH_NAMESPACE::floor (x); }
+__attribute__ ((noinline)) static int call_ceil_d (double x) { return IMATH_NAMESPACE::ceil (x); }
+__attribute__ ((noinline)) static int call_trunc_d (double x) { return IMATH_NAMESPACE::trunc (x); }
+__attribute__ ((noinline)) static int call_floor_f (float x) { return IMATH_NAMESPACE::floor (x); }
+__attribute__ ((noinline)) static int call_ceil_f (float x) { return IMATH_NAMESPACE::ceil (x); }
+__attribute__ ((noinline)) static int call_trunc_f (float x) { return IMATH_NAMESPACE::trunc (x); }
+// integer instantiations of the scalar templates
+__attribute__ ((noinline)) static int call_abs_i (int a) { return IMATH_NAMESPACE::abs (a); }
+__attribute__ ((noinline)) static int call_sign_i (int a) { return sign (a); }
+__attribute__ ((noinline)) static int call_cmp_i (int a, int b) { return cmp (a, b); }
+__attribute__ ((noinline)) static int call_cmpt_i (int a, int b, int t) { return cmpt (a, b, t); }
+__attribute__ ((noinline)) static int call_clamp_i (int a, int l, int h) { return clamp (a, l, h); }
+__attribute__ ((noinline)) static int call_iszero_i (int a, int t) { return iszero (a, t) ? 1 : 0; }
+__attribute__ ((noinline)) static int call_equal_i (int a, int b, int t) { return equal (a, b, t) ? 1 : 0; }
+__attribute__ ((noinline)) static unsigned call_ulerp_u (unsigned a, unsigned b, float t) { return ulerp (a, b, t); }
+__attribute__ ((noinline)) static unsigned call_lerp_u (unsigned a, unsigned b, float t) { return lerp (a, b, t); }
+
 // ---- printing helpers -------------------------------------------------------
 static std::string hx (uint64_t v) { char b[32]; snprintf (b, sizeof b, "%llx", (unsigned long long) v); return b; }
 static std::string hf (float f) { return hx (f2u (f)); }
@@ -190,6 +218,17 @@ template <class T> static std::string icolor (const std::string& cmd, std::vecto
         Color4<T> v ((T) pi (w[2]), (T) pi (w[3]), (T) pi (w[4]), (T) pi (w[5]));
         o << hx (rgb2packed (v));
     }
+    else if (cmd == "p2r3i")
+    {
+        Vec3<T> r;
+        packed2rgb ((PackedColor) strtoul (w[2].c_str (), 0, 16), r);
+        o << (long long) r.x << ' ' << (long long) r.y << ' ' << (long long) r.z;
+    }
+    else if (cmd == "r2p3i")
+    {
+        Vec3<T> v ((T) pi (w[2]), (T) pi (w[3]), (T) pi (w[4]));
+        o << hx (rgb2packed (v));
+    }
     return o.str ();
 }
 
@@ -215,7 +254,12 @@ static std::string handle (std::vector<std::string>& w)
     {
         int      op = opCode (w[1].c_str ());
         uint32_t u  = (uint32_t) strtoul (w[2].c_str (), 0, 16);
-        if (op <= 2) { if (!inRange32 (u)) return "x"; return std::to_string ((int32_t) f32op (op, u)); }
+        if (op <= 2)
+        {
+            if (!inRange32 (u)) return "x";
+            int r = op == 0 ? call_floor_f (u2f (u)) : op == 1 ? call_ceil_f (u2f (u)) : call_trunc_f (u2f (u));
+            return std::to_string (r);
+        }
         return hx (f32op (op, u));
     }
     if (c == "f64")
@@ -225,9 +269,9 @@ static std::string handle (std::vector<std::string>& w)
         double   d  = u2d (u);
         switch (op)
         {
-            case 0: return inRange64 (u) ? std::to_string (IMATH_NAMESPACE::floor (d)) : "x";
-            case 1: return inRange64 (u) ? std::to_string (IMATH_NAMESPACE::ceil (d)) : "x";
-            case 2: return inRange64 (u) ? std::to_string (IMATH_NAMESPACE::trunc (d)) : "x";
+            case 0: { if (!inRange64 (u)) return "x"; int r = call_floor_d (d); return std::to_string (r); }
+            case 1: { if (!inRange64 (u)) return "x"; int r = call_ceil_d (d); return std::to_string (r); }
+            case 2: { if (!inRange64 (u)) return "x"; int r = call_trunc_d (d); return std::to_string (r); }
             case 3: return IMATH_NAMESPACE::finited (d) ? "1" : "0";
             case 4: return hd (succd (d));
             default: return hd (predd (d));
@@ -238,6 +282,29 @@ static std::string handle (std::vector<std::string>& w)
         int x = (int) pi (w[1]), y = (int) pi (w[2]);
         return guarded ([=] { return call_divs (x, y); }) + " " + guarded ([=] { return call_mods (x, y); }) + " " +
                guarded ([=] { return call_divp (x, y); }) + " " + guarded ([=] { return call_modp (x, y); });
+    }
+    if (c == "int1")
+    {
+        // one function per line (the sanitised build aborts on the first overflowing intermediate)
+        int x = (int) pi (w[2]), y = (int) pi (w[3]);
+        const std::string& f = w[1];
+        return guarded ([=] { return f == "divs" ? call_divs (x, y) : f == "mods" ? call_mods (x, y) : f == "divp" ? call_divp (x, y) : call_modp (x, y); });
+    }
+    if (c == "si1")
+    {
+        // integer instantiation of one scalar template: si1 <fn> a b t
+        int a = (int) pi (w[2]), b = (int) pi (w[3]), t = (int) pi (w[4]);
+        const std::string& f = w[1];
+        int r = f == "abs" ? call_abs_i (a) : f == "sign" ? call_sign_i (a) : f == "cmp" ? call_cmp_i (a, b) : f == "cmpt" ? call_cmpt_i (a, b, t)
+              : f == "clamp" ? call_clamp_i (t, a, b) : f == "iszero" ? call_iszero_i (a, t) : call_equal_i (a, b, t);
+        return std::to_string (r);
+    }
+    if (c == "ul")
+    {
+        // ulerp / lerp at T = unsigned int, Q = float: ul <a> <b> <t as float hex>
+        unsigned a = (unsigned) strtoul (w[1].c_str (), 0, 10), b = (unsigned) strtoul (w[2].c_str (), 0, 10);
+        float t = pf (w[3]);
+        return std::to_string (call_ulerp_u (a, b, t)) + " " + std::to_string (call_lerp_u (a, b, t));
     }
     if (c == "sf") return scal<float> (pf (w[1]), pf (w[2]), pf (w[3]), hf);
     if (c == "sd") return scal<double> (pd (w[1]), pd (w[2]), pd (w[3]), hd);
@@ -273,6 +340,23 @@ static std::string handle (std::vector<std::string>& w)
         Color4<double> r = rgb2hsv_d (Color4<double> (pd (w[1]), pd (w[2]), pd (w[3]), pd (w[4])));
         return hd (r.r) + " " + hd (r.g) + " " + hd (r.b) + " " + hd (r.a);
     }
+    if (c == "fh2r3" || c == "fr2h3")
+    {
+        // the `else` arms of the templated wrappers (floating element types): fh2r3 <f|d> x y z
+        bool h2r = c == "fh2r3";
+        if (w[1] == "f") { V3f v (pf (w[2]), pf (w[3]), pf (w[4])); V3f r = h2r ? hsv2rgb (v) : rgb2hsv (v); return hf (r.x) + " " + hf (r.y) + " " + hf (r.z); }
+        V3d v (pd (w[2]), pd (w[3]), pd (w[4])); V3d r = h2r ? hsv2rgb (v) : rgb2hsv (v); return hd (r.x) + " " + hd (r.y) + " " + hd (r.z);
+    }
+    if (c == "fh2r4" || c == "fr2h4")
+    {
+        bool h2r = c == "fh2r4";
+        if (w[1] == "f") { C4f v (pf (w[2]), pf (w[3]), pf (w[4]), pf (w[5])); C4f r = h2r ? hsv2rgb (v) : rgb2hsv (v); return hf (r.r) + " " + hf (r.g) + " " + hf (r.b) + " " + hf (r.a); }
+        Color4<double> v (pd (w[2]), pd (w[3]), pd (w[4]), pd (w[5])); Color4<double> r = h2r ? hsv2rgb (v) : rgb2hsv (v);
+        return hd (r.r) + " " + hd (r.g) + " " + hd (r.b) + " " + hd (r.a);
+    }
+    if (c == "p2r3d") { V3d r; packed2rgb ((PackedColor) strtoul (w[1].c_str (), 0, 16), r); return hd (r.x) + " " + hd (r.y) + " " + hd (r.z); }
+    if (c == "p2r4d") { Color4<double> r; packed2rgb ((PackedColor) strtoul (w[1].c_str (), 0, 16), r); return hd (r.r) + " " + hd (r.g) + " " + hd (r.b) + " " + hd (r.a); }
+    if (c == "p2r3i" || c == "r2p3i") return by_type (w[1], c, w);
     if (c == "ih2r3" || c == "ir2h3" || c == "ih2r4" || c == "ir2h4") return by_type (w[1], c, w);
     if (c == "p2r4i" || c == "r2p4i") return by_type (w[1], c, w);
     if (c == "p2r3f") { V3f r; packed2rgb ((PackedColor) strtoul (w[1].c_str (), 0, 16), r); return hf (r.x) + " " + hf (r.y) + " " + hf (r.z); }
@@ -370,6 +454,98 @@ int main (int argc, char** argv)
         else if (t == "us") alpha_sweep<unsigned short> (argv[3]);
         else if (t == "i") alpha_sweep<int> (argv[3]);
         else alpha_sweep<unsigned int> (argv[3]);
+        return 0;
+    }
+    if (!strcmp (argv[1], "packed_sweep"))
+    {
+        unsigned nt = 16;
+        std::vector<uint64_t> bad4 (nt, 0), bad3 (nt, 0), f4 (nt, ~0ull), f3 (nt, ~0ull);
+        std::vector<std::thread> th;
+        for (unsigned t = 0; t < nt; ++t)
+            th.emplace_back ([&, t] {
+                for (uint64_t blk = t; blk < 65536; blk += nt)
+                    for (uint64_t i = 0; i < 65536; ++i)
+                    {
+                        PackedColor p = (PackedColor) ((blk << 16) | i);
+                        C4f c4; packed2rgb (p, c4);
+                        if (rgb2packed (c4) != p) { if (!bad4[t]++) f4[t] = p; }
+                        if ((p >> 24) == 0)
+                        {
+                            // the Vec3 form has no alpha: all 2^24 rgb words, alpha comes back as 0xFF
+                            V3f c3; packed2rgb (p, c3);
+                            if (rgb2packed (c3) != (p | 0xFF000000u)) { if (!bad3[t]++) f3[t] = p; }
+                        }
+                    }
+            });
+        for (auto& t : th) t.join ();
+        uint64_t b4 = 0, b3 = 0, m4 = ~0ull, m3 = ~0ull;
+        for (unsigned t = 0; t < nt; ++t) { b4 += bad4[t]; b3 += bad3[t]; if (f4[t] < m4) m4 = f4[t]; if (f3[t] < m3) m3 = f3[t]; }
+        printf ("%llu %s %llu %s\n", (unsigned long long) b4, b4 ? hx (m4).c_str () : "-", (unsigned long long) b3, b3 ? hx (m3).c_str () : "-");
+        return 0;
+    }
+    if (!strcmp (argv[1], "ilines"))
+    {
+        std::vector<std::string> lines;
+        std::string line;
+        while (std::getline (std::cin, line)) lines.push_back (line);
+        size_t i = 0;
+        while (i < lines.size ())
+        {
+            int po[2], pe[2];
+            if (pipe (po) || pipe (pe)) return 3;
+            fflush (stdout);
+            pid_t pid = fork ();
+            if (pid == 0)
+            {
+                close (po[0]); close (pe[0]);
+                dup2 (po[1], 1); dup2 (pe[1], 2);
+                struct sigaction sa; memset (&sa, 0, sizeof sa);
+                sa.sa_handler = on_fpe; sigemptyset (&sa.sa_mask); sa.sa_flags = SA_NODEFER;
+                sigaction (SIGFPE, &sa, 0);
+                for (size_t k = i; k < lines.size (); ++k)
+                {
+                    std::istringstream is (lines[k]);
+                    std::vector<std::string> w; std::string x;
+                    while (is >> x) w.push_back (x);
+                    std::string r = w.empty () ? std::string ("") : handle (w);
+                    r += "\n";
+                    if (write (1, r.data (), r.size ()) < 0) _exit (4);
+                }
+                _exit (0);
+            }
+            close (po[1]); close (pe[1]);
+            size_t answered = 0;
+            char   buf[65536];
+            ssize_t n;
+            std::string pend;
+            while ((n = read (po[0], buf, sizeof buf)) > 0)
+            {
+                pend.append (buf, (size_t) n);
+                size_t nl;
+                while ((nl = pend.find ('\n')) != std::string::npos)
+                {
+                    fwrite (pend.data (), 1, nl + 1, stdout);
+                    pend.erase (0, nl + 1);
+                    ++answered;
+                }
+            }
+            std::string err;
+            while ((n = read (pe[0], buf, sizeof buf)) > 0) err.append (buf, (size_t) n);
+            close (po[0]); close (pe[0]);
+            int status = 0;
+            waitpid (pid, &status, 0);
+            i += answered;
+            if (i < lines.size ())
+            {
+                // the child died while answering line i
+                std::string first = err.substr (0, err.find ('\n'));
+                size_t k = first.find ("runtime error:");
+                if (k != std::string::npos) first = first.substr (k);
+                for (auto& ch : first) if (ch == '\n' || ch == '\r') ch = ' ';
+                printf ("UB %s\n", first.empty () ? (WIFSIGNALED (status) ? "signal" : "exit") : first.c_str ());
+                ++i;
+            }
+        }
         return 0;
     }
     if (!strcmp (argv[1], "lines"))
